@@ -178,6 +178,10 @@ class DefUse:
                     p = src[1]
                     if not any(e['k'] == 'deref' for e in p['pr']):
                         new |= self.points[p['l']]
+                        if not self.points[p['l']] and p['pr'] and fn.locals[d]['ty'].startswith(('*const', '*mut')) and \
+                                fn.locals[p['l']]['ty'].startswith(('std::boxed::Box<', 'std::ptr::NonNull<', 'std::ptr::Unique<')):
+                            # the raw pointer taken out of an owning pointer (vec![..] / Box::new lowering): what is written through it is the box's content
+                            new.add((p['l'], ()))
                 elif src[0] in ('agg', 'call'):
                     dty = fn.locals[d]['ty']
                     if Prov.borrowing_ty(dty) or src[0] == 'agg':
